@@ -955,13 +955,22 @@ def _guard_present(ctx, cs, k, g, closures, helpers, relaxed=False, base_combs=N
     return False
 
 
-def check(ctx, prop):
-    """Compare the current tree with the committed baseline of `prop`."""
+def check(ctx, prop, also=()):
+    """Compare the current tree with the committed baseline of `prop`. `also` = [(other property, function-name regex)]: entries of a
+    neighbouring property's baseline that this property's statement covers although its mechanism list does not name them."""
     F = ctx.F
     p = baseline_path(prop)
     if not os.path.exists(p):
         return ctx.lost("baseline", "R9", None, "confirmed-instance baseline", "baseline file missing: " + p)
     base = json.load(open(p))
+    for other, rx in also:
+        po = baseline_path(other)
+        if not os.path.exists(po):
+            return ctx.lost("baseline", "R9", None, "confirmed-instance baseline", "baseline file missing: " + po)
+        extra = {k: v for k, v in json.load(open(po)).items() if re.search(rx, k) and k not in base}
+        if not extra:
+            return ctx.lost("baseline", "R9", None, "confirmed-instance baseline", "no entry of %s matches %s" % (other, rx))
+        base.update(extra)
     roles = {}
     for k in F.fns:
         roles.setdefault(_closure_role(F, k), k)
